@@ -809,6 +809,13 @@ func checkC15(p *Prog, r *Report) {
 			r.Fail("per-ufrag table keys", "tcp_mux.go", "table accesses not found (rule instance lost)")
 		}
 	}
+	// ---- R15.11 the first frame is read whole ----------------------------------------------------------------
+	r.Rule("R15.11", "readStreamingPacket, which reads the first framed STUN message of an accepted connection and every later packet, reads the 2-byte length and the payload with loops that tolerate short reads and stay inside their buffers (the rule of C14 R14.1): a length prefix split over two TCP segments does not make a valid first frame look oversized.", 3)
+	if rd := p.Fn("readStreamingPacket"); r.Anchor("readStreamingPacket", rd != nil) {
+		if hdr, okH := p.constInt("streamingPacketHeaderLen"); r.Anchor("streamingPacketHeaderLen", okH) {
+			checkReadStreamingPacket(p, r, rd, hdr)
+		}
+	}
 }
 
 func rootIdent(e ast.Expr) *ast.Ident {
